@@ -202,6 +202,8 @@ class Evaluator:
         self.undefined = False     # some evaluation left the defined domain (case must be discarded)
         self.idx_cache = {}
         self.derivations = 0
+        self.steps = 0
+        self.max_steps = 1000000
         self._prep()
 
     # --- preparation: injected variables of aggregates, strata ---
@@ -501,6 +503,10 @@ class Evaluator:
         return idx
 
     def solve_lit(self, l, env):
+        self.steps += 1
+        if self.steps > self.max_steps:
+            # deterministic work budget (not a clock): the case is too expensive for the naive model and is discarded
+            raise Undefined("reference evaluation exceeds %d steps" % self.max_steps)
         if isinstance(l, Atom):
             # bound simple positions -> index lookup
             pos, key = [], []
